@@ -20,7 +20,7 @@ SetOf(q) == {q[i] : i \in 1..Len(q)}
 Ext(f, k, v) == [x \in DOMAIN f \cup {k} |-> IF x = k THEN v ELSE f[x]]
 Get(f, k, d) == IF k \in DOMAIN f THEN f[k] ELSE d
 NewTx == [okKeys |-> {}, seenKeys |-> {}, cneKeys |-> {}, ops |-> <<>>, primaries |-> {}, primaryOK |-> FALSE, primaryMaybe |-> FALSE,
-          commits |-> {}, mincs |-> {}, advise |-> 0, hbAfterEnd |-> 0, ended |-> FALSE, buffer |-> <<>>, hasBuffer |-> FALSE,
+          commits |-> {}, mincs |-> {}, advise |-> 0, hbAfterEnd |-> 0, ended |-> FALSE, buffer |-> <<>>, hasBuffer |-> FALSE, bufPess |-> FALSE, bufAlevel |-> "off",
           tsoAtCommit |-> 0, async |-> FALSE, onepcReqs |-> 0, prewriteReqs |-> 0, rolledBackSent |-> FALSE]
 T(s) == Get(tx, s, NewTx)
 Bad(rule, detail) == PrintT(<<"MISMATCH", pos, rule, detail>>)
@@ -31,6 +31,25 @@ RespOK(e) == e.executed /\ e.resp.kind = "ok" /\ e.resp.errs = <<>>
 MutKeys(ms) == {ms[i].k : i \in 1..Len(ms)}
 BufVal(buf, k) == buf[CHOOSE i \in 1..Len(buf) : buf[i].k = k].val
 BufKeys(buf) == {buf[i].k : i \in 1..Len(buf)}
+BufEntry(buf, k) == buf[CHOOSE i \in 1..Len(buf) : buf[i].k = k]
+\* the mutation a buffer entry implies (twoPhaseCommitter.initKeysAndMutations without a kv filter): val -1 = no value,
+\* 0 = tombstone; "skip" = the entry produces no mutation
+ExpOp(b, pess) ==
+  IF b.val = -1 THEN (IF b.locked THEN "Lock" ELSE "skip")
+  ELSE IF b.val > 0 THEN (IF b.pne THEN "Insert" ELSE "Put")
+  ELSE IF ~pess /\ b.pne THEN "CheckNotExists"
+  ELSE IF b.newly THEN (IF b.locked THEN "Lock" ELSE "skip")
+  ELSE "Del"
+ExpAssert(b, alevel) == IF alevel = "off" THEN "None" ELSE IF b.aex THEN "Exist" ELSE IF b.anex THEN "NotExist" ELSE "None"
+ExpAct(b, pess) == IF b.locked /\ pess THEN "pess" ELSE IF b.pcc THEN "constraint" ELSE "skip"
+MutBufKeys(t) == {k \in BufKeys(t.buffer) : ExpOp(BufEntry(t.buffer, k), t.bufPess) # "skip"}
+ContentOK(t, m) ==
+  /\ m.k \in MutBufKeys(t)
+  /\ LET b == BufEntry(t.buffer, m.k) IN
+       /\ m.op = ExpOp(b, t.bufPess)
+       /\ (m.op \in {"Put", "Insert"} => m.val = b.val)
+       /\ m.assert = ExpAssert(b, t.bufAlevel)
+       /\ m.act = ExpAct(b, t.bufPess)
 
 Init == pos = 1 /\ tx = <<>> /\ status = <<>> /\ maxTso = 0 /\ idOf = <<>> /\ lockTtl = <<>>
 \* statuses the store reports in key errors are also remembered (lock ttl advertised for a transaction)
@@ -55,6 +74,11 @@ OnPrewrite(e) ==
      /\ Check(~t.primaryMaybe, "a prewrite is sent after the primary commit may have taken effect", s)
      /\ (r.async /\ r.primary \in ks) => Check(SetOf(r.secondaries) \cap {r.primary} = {}, "async primary lists itself as a secondary", s)
      /\ Check(r.minc = 0 \/ r.minc > s, "min-commit-ts of a prewrite is not above the start ts", <<s, r.minc>>)
+     \* every prewritten mutation is the one its buffer entry implies: operation, value, assertion, pessimistic action
+     /\ t.hasBuffer =>
+          \A i \in 1..Len(r.muts) :
+             Check(ContentOK(t, r.muts[i]), "a prewritten mutation differs from what the buffered write implies",
+                   <<s, r.muts[i], IF r.muts[i].k \in BufKeys(t.buffer) THEN BufEntry(t.buffer, r.muts[i].k) ELSE "not buffered", t.bufPess, t.bufAlevel>>)
 
 OnCommit(e) ==
   LET r == e.req  s == r.start  t == T(s)
@@ -67,21 +91,13 @@ OnCommit(e) ==
   IN /\ tx' = Ext(tx, s, t2)
      /\ Check(ks \subseteq t.okKeys, "a key is committed that was not successfully prewritten", <<s, ks \ t.okKeys>>)
      /\ Check(t.seenKeys \subseteq t.okKeys, "commit is sent while a prewritten mutation has not succeeded", <<s, t.seenKeys \ t.okKeys>>)
-     /\ t.hasBuffer => Check(BufKeys(t.buffer) \subseteq t.okKeys \cup t.cneKeys, "commit is sent before every buffered mutation was prewritten", <<s, BufKeys(t.buffer) \ (t.okKeys \cup t.cneKeys)>>)
+     /\ t.hasBuffer => Check(MutBufKeys(t) \subseteq t.okKeys \cup t.cneKeys, "commit is sent before every buffered mutation was prewritten", <<s, MutBufKeys(t) \ (t.okKeys \cup t.cneKeys)>>)
      /\ Check(hasPrim \/ t.primaryOK \/ t.async, "a secondary is committed before the primary's commit succeeded", <<s, ks>>)
      /\ Check(prim \in t.seenKeys \/ prim = 0, "the primary is not one of the locked mutations", <<s, prim>>)
      /\ Check(r.commit > s, "commit ts not above start ts", <<s, r.commit>>)
      /\ Check(\A m \in t.mincs : r.commit >= m, "commit ts below a min-commit-ts returned by a prewrite", <<s, r.commit, t.mincs>>)
      /\ Check(t.tsoAtCommit = 0 \/ r.commit > t.tsoAtCommit, "commit ts does not exceed the timestamps issued before Commit was called", <<s, r.commit, t.tsoAtCommit>>)
      /\ Check(t.onepcReqs = 0 \/ t.prewriteReqs <= 1, "one-phase commit attempted together with other prewrite requests", s)
-     \* the prewritten mutations are the buffered writes with the operation each entry implies
-     /\ t.hasBuffer =>
-          \A i \in 1..Len(t.ops) :
-             LET m == t.ops[i] IN
-             (m.k \in BufKeys(t.buffer)) =>
-                Check(IF BufVal(t.buffer, m.k) > 0 THEN m.op \in {"Put", "Insert"} /\ m.val = BufVal(t.buffer, m.k)
-                      ELSE m.op \in {"Del", "CheckNotExists", "Lock"},
-                      "a prewritten mutation differs from the buffered write", <<s, m, BufVal(t.buffer, m.k)>>)
 
 OnRollback(e) ==
   LET s == e.req.start  t == T(s)
@@ -127,7 +143,7 @@ Next ==
        [] e.ev = "api_ret" /\ e.c = "begin" /\ e.class = "nil" ->
             idOf' = Ext(idOf, e.txn, e.start) /\ UNCHANGED <<tx, status, maxTso, lockTtl>>
        [] e.ev = "commit_buffer" /\ e.txn \in DOMAIN idOf ->
-            /\ tx' = Ext(tx, idOf[e.txn], [T(idOf[e.txn]) EXCEPT !.buffer = e.buffer, !.hasBuffer = TRUE, !.tsoAtCommit = maxTso])
+            /\ tx' = Ext(tx, idOf[e.txn], [T(idOf[e.txn]) EXCEPT !.buffer = e.buffer, !.hasBuffer = TRUE, !.bufPess = e.pess, !.bufAlevel = e.alevel, !.tsoAtCommit = maxTso])
             /\ UNCHANGED <<status, maxTso, idOf, lockTtl>>
        [] e.ev = "api_ret" /\ e.c \in {"commit", "rollback"} /\ e.txn \in DOMAIN idOf ->
             /\ tx' = Ext(tx, idOf[e.txn], [T(idOf[e.txn]) EXCEPT !.ended = TRUE])
